@@ -237,7 +237,7 @@ class CallTracer:
         sample_rate: Optional[int] = None,
     ) -> None:
         self.logger = logger
-        self.traces: Dict[FrameType, CallTrace] = {}
+        self.traces: Dict[FrameType, Optional[CallTrace]] = {}
         self.sample_rate = sample_rate
         # A private generator: drawing from the module-level one would change
         # the random stream of the traced program
@@ -269,6 +269,10 @@ class CallTracer:
             return
         arg_names = code.co_varnames[: code.co_argcount + code.co_kwonlyargcount]
         arg_types = {}
+        # A call with a value whose type cannot be collected is abandoned as a
+        # whole (None): it stays known until its frame finishes, so that a
+        # resumption is not taken for a new call, and nothing is logged for it.
+        self.traces[frame] = None
         for name in arg_names:
             if name in frame.f_locals:
                 arg_types[name] = get_type(
@@ -283,19 +287,28 @@ class CallTracer:
         # from a function returning (or yielding) None. In the latter case, the
         # the last instruction that was executed should always be a return or a
         # yield.
-        typ = get_type(arg, max_typed_dict_size=self.max_typed_dict_size)
+        if frame not in self.traces:
+            return
+        trace = self.traces[frame]
         last_opcode = frame.f_code.co_code[frame.f_lasti]
-        trace = self.traces.get(frame)
+        if last_opcode != YIELD_VALUE_OPCODE:
+            # The call is over, whatever happens below
+            del self.traces[frame]
         if trace is None:
             return
-        elif last_opcode == YIELD_VALUE_OPCODE:
+        try:
+            typ = get_type(arg, max_typed_dict_size=self.max_typed_dict_size)
+        except Exception:
+            if last_opcode == YIELD_VALUE_OPCODE:
+                self.traces[frame] = None
+            raise
+        if last_opcode == YIELD_VALUE_OPCODE:
             # A coroutine suspending on an await is not a yield
             if not frame.f_code.co_flags & inspect.CO_COROUTINE:
                 trace.add_yield_type(typ)
         else:
             if last_opcode in RETURN_OPCODES:
                 trace.return_type = typ
-            del self.traces[frame]
             self.logger.log(trace)
 
     def __call__(self, frame: FrameType, event: str, arg: Any) -> "CallTracer":
